@@ -242,3 +242,30 @@ Proof.
   destruct (Hfull _ _ Hg eq_refl eq_refl eq_refl Hnn) as (_ & _ & Hall).
   rewrite Forall_forall in Hall. destruct (Hall _ Hin) as (A & _). cbn [fst snd] in A. apply Hne. exact A.
 Qed.
+
+(* ---------- jpeg_crop_scanline called twice ---------- *)
+(* when the second call goes through the alignment code, it sets the region the documentation promises *)
+Lemma recrop_ok_agrees ow align x1 w1 x2 w2 x' w' :
+  0 < align -> 0 <= x1 -> 0 <= x2 -> 0 < w1 ->
+  recrop_faithful ow align x1 w1 x2 w2 = Some (ReOk x' w') -> recrop_documented ow align x2 w2 = Some (x', w').
+Proof.
+  intros Ha Hx1 Hx2 Hw1. unfold recrop_faithful, recrop_documented, crop_region.
+  pose proof (crop_window_all ow align x1 w1 Ha Hx1) as C1.
+  destruct (crop_scanline ow align x1 w1) as [| |xa wa fa la]; [discriminate | |].
+  - (* first call: entire width *)
+    destruct (crop_scanline ow align x2 w2) as [| |xb wb fb lb]; try discriminate. intros E. inversion E. reflexivity.
+  - destruct C1 as (_ & C2 & _ & C4 & _ & _ & C7 & C8 & C9 & _). specialize (C9 Hw1).
+    unfold crop_scanline.
+    destruct ((w2 =? 0) || (wa <? x2 + w2)) eqn:E1; [discriminate|].
+    destruct (w2 =? wa) eqn:E2; [discriminate|].
+    assert (E3 : (w2 =? 0) || (ow <? x2 + w2) = false) by lia.
+    assert (E4 : (w2 =? ow) = false) by lia.
+    rewrite E3, E4. intros E. inversion E. reflexivity.
+Qed.
+
+(* but the two other outcomes contradict it: a request of the same width at another offset is ignored silently, and a valid
+   region to the right of the first one is rejected (64 columns, iMCU width 16, first region 16+32) *)
+Lemma recrop_refuted :
+  recrop_faithful 64 16 16 32 0 32 = Some (ReIgnored 16 32) /\ recrop_documented 64 16 0 32 = Some (0, 32) /\
+  recrop_faithful 64 16 16 32 32 32 = Some ReErr /\ recrop_documented 64 16 32 32 = Some (32, 32).
+Proof. vm_compute. repeat split; reflexivity. Qed.
